@@ -364,10 +364,10 @@ def apply_fn(fs, item_text, unit_id, rewrites_log, out, where, canary=False, len
         if fs.loops or fs.anchors:
             raise LostAnchor("%s: %s has no body but contract has loop/anchor sections" % (unit_id, fs.name))
     if canary and body_open is not None and not fs.bodyless:
-        ins.append((toks[body_open].end, 5, " proof { assert(false); } ", "canary.body", ["canary"], None))
+        ins.append((toks[body_open].end, 5, "\n proof { assert(false); } \n", "canary.body", ["canary"], None))
         isolated = not any("loop_isolation(false)" in a for a in fs.attrs)
         for kk, (kwi, boi) in enumerate(loop_headers(toks, body_open + 1, match_close(toks, body_open)) if isolated else []):
-            ins.append((toks[boi].end, 5, " proof { assert(false); } ", "canary.loop%d" % kk, ["canary"], None))
+            ins.append((toks[boi].end, 5, "\n proof { assert(false); } \n", "canary.loop%d" % kk, ["canary"], None))
     # emit
     ins.sort(key=lambda x: (x[0], x[1]))
     erased_parts = []
